@@ -10,7 +10,20 @@ fn main() {
     // the downstream software of the standard output stream closes the pipe and triggers a panic.
     uucore::panic::mute_sigpipe_panic();
 
-    let args = std::env::args().collect::<Vec<String>>();
+    // std::env::args() panics on arguments that are not valid Unicode.
+    let args = match std::env::args_os()
+        .map(std::ffi::OsString::into_string)
+        .collect::<Result<Vec<String>, _>>()
+    {
+        Ok(args) => args,
+        Err(arg) => {
+            eprintln!(
+                "find: argument is not valid UTF-8: {}",
+                arg.to_string_lossy()
+            );
+            std::process::exit(1);
+        }
+    };
     let strs: Vec<&str> = args.iter().map(std::convert::AsRef::as_ref).collect();
     let deps = findutils::find::StandardDependencies::new();
     std::process::exit(findutils::find::find_main(&strs, &deps));
